@@ -2,7 +2,7 @@
 From Coq Require Import String List ZArith Bool Arith Permutation.
 From PV Require Import Xnum Select PyLib Select_proofs Loop Loop_proofs Skeleton Skeleton_proofs SizeModels.
 From PVGen Require Import Algos Expected GenSelect.
-From PVBridge Require Import AlgoBridge SelectBridge C16Main ElitMain.
+From PVBridge Require Import AlgoBridge SelectBridge C16Main ElitMain SizeBridge.
 
 Theorem C10_pinned_set : forall n, In n pinned_size_regular ->
   exists sk, In sk all_skeletons /\ sk_name sk = n /\ size_regular sk = true.
@@ -31,12 +31,22 @@ Proof. intros. eapply regular_size; eauto. Qed.
    condition (number of groups divides the population, even population for the genetic algorithm) - every generation has exactly P agents *)
 Theorem C10_irregular_models : forall P m, side_ok P m = true -> forall k, iterate (step_of P P m) k P = P.
 Proof. exact model_conserves. Qed.
+(* the grouping helper the group-based models are built on is REGENERATED from abstract.py (for loop over range, slices, append, residual rule): its groups have
+   exactly the sizes `groups_sizes` of SizeModels.v, for every population, group count, group size and residual flag *)
+Theorem C10_grouping_regenerated : forall A copy (pop : list A) P n_groups n_agents wr,
+  map (@length A) (gen_generate_group_population A copy pop P n_groups n_agents wr) = groups_sizes (length pop) P n_groups n_agents wr.
+Proof. exact group_sizes_bridge. Qed.
+Theorem C10_grouping_total : forall A copy (pop : list A) P n_groups n_agents wr,
+  length (concat (gen_generate_group_population A copy pop P n_groups n_agents wr)) = groups_total (length pop) P n_groups n_agents wr.
+Proof. exact group_total_bridge. Qed.
+
 (* and outside the side condition the loss is exactly the residual: e.g. clustered optimizers keep P - P mod m agents *)
 Theorem C10_clustered_residual : forall P m n, m <> 0 -> clustered P m P n = P - P mod m.
 Proof. exact clustered_loses_residual. Qed.
 
 Print Assumptions C10_pinned_set.
 Print Assumptions C10_irregular_models.
+Print Assumptions C10_grouping_regenerated.
 Print Assumptions C10_initial_size.
 Print Assumptions C10_write_preserves.
 Print Assumptions C10_regular_size.
